@@ -120,10 +120,20 @@ class Values:
                            f'{self.initial.get(mm, 0)!r}, cost of started orders {self.order_cost[mm]!r}')
                 return
         net = m.system.get_net_value_of_assets()
-        want = sum(d.value for d in m.devs.values())
+        want = sum(d.value for d in m.devs.values()) + sum(a.value for a in m.world.extra)
         if net != want:
-            ctx.report('net_value', f'get_net_value_of_assets() = {net!r}, sum over the created assets {want!r}')
+            ctx.report('net_value', f'get_net_value_of_assets() = {net!r}, sum over the created assets {want!r} '
+                       f'({len(m.world.extra)} of them created during the run)')
             return
+        reg = sum(a.value for a in m.system.find_assets() if hasattr(a, 'value'))
+        if net != reg:
+            ctx.report('net_value', f'get_net_value_of_assets() = {net!r}, sum over find_assets() {reg!r}')
+            return
+        if m.world.extra:
+            ctx.count('net_value_checks_with_late_assets')
+        for a in m.world.extra:
+            if not self.check_history(a.name, a, a._initial_value, now):
+                return
         ctx.count('net_value_checks')
 
     def features(self):
